@@ -29,8 +29,8 @@ from . import common
 from .translate import readsig as tr
 
 PROP = "C11"
-MODULES = ["PdsVerif.Props.C11", "PdsVerif.Lemmas.ReadSignal"]
-MODEL_MODULES = ["PdsVerif.Model.ReadSignal", "PdsVerif.Generated.ReadSig"]
+MODULES = ["PdsVerif.Props.C11", "PdsVerif.Lemmas.ReadSignal"]  # Lemmas/WavFrames is audited through the theorems of Props/C11
+MODEL_MODULES = ["PdsVerif.Model.ReadSignal", "PdsVerif.Generated.ReadSig", "PdsVerif.Model.WavFrames"]
 REQUIRED = ["PdsVerif.C11." + n for n in """
     regex_is_modelled tableMatch_iff chainSuffixes_documented rules_shape inferKind_total no_suffix_ioerror_iff no_suffix_ioerror table_rspecifier sf_suffix
     suffix_maps_to_kind pipe_suffix wav_precedence_irrelevant bare_type_name lastSeg_mem_iff
@@ -38,7 +38,7 @@ REQUIRED = ["PdsVerif.C11." + n for n in """
     sf_type_reader wav_reader inferred_type_is_dispatchable default_key_arr0 default_key_hdf5 default_key_table kaldi_default_dtype
     h5_first_dataset h5_never_out_of_fuel h5_visit_order final_cast_generic final_cast_readers dtype_to_decoder
     dtype_is_final_cast sf_subtype_dtype wds_never_raises wds_none_iff wds_some wds_undecodable_key
-    avail_message_complete""".split()]
+    avail_message_complete waveRead_waveFrames waveRead_ragged waveRead_width3""".split()]
 RULE = (
     "names: documented suffixes x stems (empty, dotted, directories, spaces, non-ASCII), case variants, doubled suffixes "
     "(x.wav.npy), near misses (xwav, '.wav ', .npy.bak), bare type names (wav, flac, npy), no dot, dot only, trailing '|', "
@@ -95,7 +95,10 @@ LEVEL_TEXT = (
     "dataset in ascending name order = the while loop, Kaldi first entry); reading with dtype=d equals reading without "
     "followed by astype(d) for wav/soundfile/npy/npz/pt/HDF5 through the whole of read_signal; wds_read_signal never "
     "raises and returns None iff something inside raised. All over tables regenerated from util.py/config.py each run. "
-    "NOT proved (tested): the codecs - bit-identical round trips, stored dtype, time x channels."
+    "The one codec that is the repository's own code is proved too: `_wave_read_signal`'s decoding of the frames `wave` hands it "
+    "(little-endian two's complement of 1/2/4/8 bytes, divisibility check, C-order reshape) returns exactly the stored "
+    "samples with shape time x channels ((time,) for mono) for every channel count and length (waveRead_waveFrames); 24-bit is "
+    "refused. NOT proved (tested): the third-party codecs - bit-identical round trips, stored dtype, time x channels."
 )
 LEVEL_NOTE = (
     "Trusted: Lean kernel, std axioms, the readsig translator, the third-party codecs (numpy, torch, h5py, libsndfile, "
@@ -1270,9 +1273,113 @@ class Scratch:
         shutil.rmtree(self.root, ignore_errors=True)
 
 
+# =====================================================================================================
+# the PCM frames of a wav file: `_wave_read_signal`'s own decoding (Model/WavFrames.lean)
+# =====================================================================================================
+
+
+def wav_file(path, width, chans, frames):
+    import wave
+
+    w = wave.open(path, "wb")
+    w.setnchannels(chans)
+    w.setsampwidth(width)
+    w.setframerate(8000)
+    w.writeframes(frames)
+    w.close()
+
+
+def wavframes_run(u, case, root):
+    """write the case's frames with the standard library's `wave`, read them back by name and through a stream.
+    Returns (frames bytes, [result or exception name per access path])."""
+    width, chans, n = case["width"], case["channels"], case["n"]
+    rs = np.random.RandomState(case["seed"])
+    lo, hi = -(1 << (8 * width - 1)), (1 << (8 * width - 1)) - 1
+    a = rs.randint(lo, hi + 1, size=(n, chans), dtype=np.int64)
+    if n:
+        a.flat[0], a.flat[-1] = lo, hi  # the extremes of the sample range
+    frames = b"".join(int(v).to_bytes(width, "little", signed=True) for v in a.ravel())
+    path = os.path.join(root, "frames.wav")
+    wav_file(path, width, chans, frames)
+    outs = []
+    for acc in ("path", "stream"):
+        try:
+            if acc == "path":
+                res = u.read_signal(path)
+            else:
+                with open(path, "rb") as f:
+                    res = u.read_signal(f, force_as="wav")
+            outs.append(res)
+        except Exception as e:  # noqa
+            outs.append("err:" + type(e).__name__)
+    return a, frames, outs
+
+
+def wavframes_check(ctx, case, a, outs):
+    """the property's wav clause on the implementation (16- and 32-bit PCM)"""
+    width, chans, n = case["width"], case["channels"], case["n"]
+    if width not in (2, 4):
+        return
+    want_shape = (n, chans) if chans > 1 else (n,)
+    want_dtype = {2: np.int16, 4: np.int32}[width]
+    for acc, res in zip(("path", "stream"), outs):
+        ok = (not isinstance(res, str) and res.shape == want_shape and res.dtype == want_dtype
+              and np.array_equal(res.reshape(-1), a.reshape(-1)))
+        if not ok:
+            ctx.violation(dict(case, access=acc), dict(shape=list(want_shape), dtype=np.dtype(want_dtype).name, first=a.ravel()[:6].tolist()),
+                          res if isinstance(res, str) else dict(shape=list(res.shape), dtype=str(res.dtype), first=res.ravel()[:6].tolist()),
+                          "a 16-/32-bit PCM wav written with `wave` reads back bit-identically, shape time x channels ((time,) for mono)",
+                          tags=dict(clause="roundtrip", container="wav_frames", access=acc))
+
+
+def wavframes_model_agrees(case, frames, res, o):
+    if o.startswith("err:"):
+        return isinstance(res, str) and res == o
+    if isinstance(res, str):
+        return False
+    _, shape, xs = o.split(" ")
+    mshape = [] if shape == "-" else [int(t) for t in shape.split(",")]
+    mxs = [] if xs == "-" else [int(t) for t in xs.split(",")]
+    return list(res.shape) == mshape and [int(v) for v in res.reshape(-1)] == mxs
+
+
+def wavframes_phase(ctx, driver, root):
+    u = util()
+    r = ctx.rng
+    cases = []
+    # every width NumPy can decode x channel counts x lengths around 0/1, then random ones; 24-bit is refused
+    for width in (2, 4, 1, 3):
+        for chans in (1, 2, 3, 6):
+            for n in (0, 1, 2, 7):
+                cases.append(dict(kind="wavframes", width=width, channels=chans, n=n, seed=r.randrange(1 << 30)))
+    for _ in range(ctx.scale(60, 1500)):
+        cases.append(dict(kind="wavframes", width=r.choice([2, 2, 4, 4, 1, 3]), channels=r.choice([1, 1, 2, 3, 4, 5, 6, 8]),
+                          n=r.choice([0, 1, 2, 3, 10, 100, 257, 1000]), seed=r.randrange(1 << 30)))
+    lines, pend = [], []
+    for case in cases:
+        if ctx.out_of_time():
+            break
+        a, frames, outs = wavframes_run(u, case, root)
+        ctx.case(case, nontrivial=case["n"] > 0, kind="wavframes:w%d" % case["width"])
+        wavframes_check(ctx, case, a, outs)
+        lines.append("wavframes %d %d %s" % (case["width"], case["channels"], ",".join(str(b) for b in frames) or "-"))
+        pend.append((case, frames, outs))
+    if driver is None:
+        return
+    got = driver.run(lines)
+    ctx.corr_lines += len(lines)
+    ctx.count("correspondence_lines", len(lines))
+    for (case, frames, outs), o in zip(pend, got):
+        for acc, res in zip(("path", "stream"), outs):
+            if o == "bad-op" or not wavframes_model_agrees(case, frames, res, o):
+                ctx.mismatch(dict(case, access=acc), o[:200], res if isinstance(res, str) else dict(shape=list(res.shape), first=res.ravel()[:6].tolist()),
+                             "_wave_read_signal on the frames `wave` returns: model vs implementation")
+
+
 def run(ctx, driver):
     warnings.simplefilter("ignore")
     with Scratch() as root:
+        wavframes_phase(ctx, driver, root)
         names_phase(ctx, driver, root)
         errors_phase(ctx, driver, root)
         roundtrip_phase(ctx, driver, root)
@@ -1310,6 +1417,13 @@ def replay(rp):
                     print("impl (read_signal on a file of that name, per container written):", probe_path(u, name, contents, root))
                 model("read 0 %s ~ ~ ~ %s" % (enc(name), extra_word(name)))
             print("documented:", documented_kind(name, sf_types()))
+        elif kind == "wavframes":
+            a, frames, outs = wavframes_run(u, case, root)
+            for acc, res in zip(("path", "stream"), outs):
+                print("impl (%s):" % acc, res if isinstance(res, str) else describe(res))
+            print("stored:", describe(a.astype({1: np.int8, 2: np.int16, 4: np.int32}.get(case["width"], np.int64))))
+            wavframes_check(ctx, case, a, outs)
+            model("wavframes %d %d %s" % (case["width"], case["channels"], ",".join(str(b) for b in frames) or "-"))
         elif kind == "roundtrip":
             lines, expect = [], []
             roundtrip_case(ctx, u, case, root, lines, expect)
